@@ -7,6 +7,20 @@ import (
 	"github.com/diskfs/go-diskfs/internal/vp/vpdev"
 )
 
+// c06Dev: MemDev whose 32 KiB system area (which Read fetches in one call and ignores) is
+// delivered as zeros without evaluating 32768 symbolic bytes one by one.
+type c06Dev struct {
+	*vpdev.MemDev
+	sysStart int64
+}
+
+func (d *c06Dev) ReadAt(p []byte, off int64) (int, error) {
+	if off == d.sysStart && int64(len(p)) == systemAreaSize {
+		return len(p), nil
+	}
+	return d.MemDev.ReadAt(p, off)
+}
+
 // c06ReadImage: a minimal plain ISO 9660 image (PVD, terminator, root directory with one file,
 // path tables; descriptors and records produced by the library's own encoders, geometry as
 // Finalize lays it out: root at block 18, L/M path tables at 19/20, file data at 21) placed
@@ -36,8 +50,9 @@ func c06ReadImage(start int64) {
 		creation: now, modification: now, expiration: now, effective: now, rootDirectoryEntry: d.entries[0]}
 	pb := pvd.toBytes()
 	c06NullDates(pb)
-	dev := vpdev.NewMemDev("disk", start+64*bs)
-	dev.UF = true
+	mem := vpdev.NewMemDev("disk", start+64*bs)
+	mem.UF = true
+	dev := &c06Dev{MemDev: mem, sysStart: start}
 	put := func(block int64, data []byte) {
 		dev.Log = append(dev.Log, vpdev.WRec{Off: start + block*bs, Len: len(data), Data: data})
 	}
